@@ -202,6 +202,12 @@ structure Scan where
   dot : Bool := false
   deriving Repr, DecidableEq
 
+/-- `l.peekOk(i) && pred(l.peek(i))` -/
+def peekSat (rest : Bytes) (i : Nat) (pred : UInt8 → Bool) : Bool :=
+  match rest[i]? with
+  | some d => pred d
+  | none => false
+
 /-- the `for l.peekOk(i)` loop of `consumeNumber`; returns `(i, int)` -/
 def numberLoop (rest : Bytes) (base : Nat) : Nat → Nat → Bool → Bool → Option (Nat × Bool)
   | 0, _, _, _ => none
@@ -220,8 +226,12 @@ def numberLoop (rest : Bytes) (base : Nat) : Nat → Nat → Bool → Bool → O
         | none => some (i, isInt)
       else some (i, isInt)
 
+/-- `0x` / `0X` followed by at least one hexadecimal digit -/
+def isHexPrefix (rest : Bytes) : Bool :=
+  rest[0]? == some 48 && (rest[1]? == some 120 || rest[1]? == some 88) && peekSat rest 2 Char.isHexDigit
+
 def consumeNumber (rest : Bytes) (p0 : Nat) (noPanic : Bool) : Res Scan :=
-  let hex := rest[0]? == some 48 && (rest[1]? == some 120 || rest[1]? == some 88)
+  let hex := isHexPrefix rest
   let i0 := if hex then 2 else 0
   let base := if hex then 16 else 10
   match numberLoop rest base (rest.length + 1) i0 true false with
@@ -272,12 +282,6 @@ def identTok (rest : Bytes) : Scan :=
 
 def tok1 (k : String) : Res Scan := .ok { kind := K k, len := 1 }
 def tok2 (k : String) : Res Scan := .ok { kind := K k, len := 2 }
-
-/-- `l.peekOk(i) && pred(l.peek(i))` -/
-def peekSat (rest : Bytes) (i : Nat) (pred : UInt8 → Bool) : Bool :=
-  match rest[i]? with
-  | some d => pred d
-  | none => false
 
 /-- `l.peekIs(i, c)` -/
 def peekIs (rest : Bytes) (i : Nat) (c : UInt8) : Bool := rest[i]? == some c
@@ -394,8 +398,8 @@ def isBlockCommentStart (rest : Bytes) : Bool :=
 def skipComment (rest : Bytes) (p0 : Nat) (noPanic : Bool) : Res (Nat × Bool) :=
   if isLineCommentStart rest then .ok ((scanUntil [10] rest).getD rest.length, false)
   else if isBlockCommentStart rest then
-    match scanUntil [42, 47] rest with
-    | some n => .ok (n, false)
+    match scanUntil [42, 47] (rest.drop 2) with
+    | some n => .ok (n + 2, false)
     | none =>
       if noPanic then .ok (rest.length, true)
       else .err ⟨.unclosedComment, p0, p0 + rest.length⟩
